@@ -517,8 +517,89 @@ VP_BUILTIN(F29_pbf_fd_leak_on_error) {
     }
 }
 
+// ---------------------------------------------------------------- a Reader that cannot even be constructed leaves nothing behind
+// The file does not exist; it exists but its name says nothing about the format; it exists and the format is known but cannot be read
+// (an output-only format, or a compressed file that is not what its suffix says): the constructor (or the first call) reports an error,
+// and no descriptor and no thread stays behind -- whichever of these comes first inside the constructor.
+static void prop_constructor_failure(Src& s) {
+    (void)osmium::thread::Pool::default_instance();
+    static const std::string dir = tmpdir::prefix() + "c07ctor-" + std::to_string(getpid());
+    const unsigned kind = static_cast<unsigned>(s.draw(6));
+    filegen::Made m = filegen::small_file(s, 3, 6);  // some OPL text as content where a file exists
+    std::string path, format, what;
+    bool make_file = true;
+    switch (kind) {
+        case 0: path = dir + "-missing.osm"; make_file = false; what = "file does not exist"; break;
+        case 1: path = dir + "-missing.osm.bz2"; make_file = false; what = "compressed file does not exist"; break;
+        case 2: path = dir + "-noformat.data"; what = "file exists, format cannot be detected from its name"; break;
+        case 3: path = dir + "-x.opl"; format = "debug"; what = "file exists, format 'debug' has no parser"; break;
+        case 4: path = dir + "-x.opl"; format = s.boolean() ? "blackhole" : "ids"; what = "file exists, output-only format"; break;
+        default: path = dir + "-x.opl.bz2"; what = "file exists, is not bzip2 although its name says so"; break;
+    }
+    if (make_file) {
+        std::ofstream f(path, std::ios::binary | std::ios::trunc);
+        f.write(m.bytes.data(), static_cast<std::streamsize>(m.bytes.size()));
+    }
+    if (vp::want_desc()) vp::describe("Reader that cannot be constructed: " + what);
+    const int fds_before = perturb::fd_count();
+    const int threads_before = perturb::thread_count();
+    bool threw = false;
+    std::string msg;
+    const unsigned attempts = 1 + static_cast<unsigned>(s.draw(4));
+    for (unsigned i = 0; i < attempts; ++i) {
+        try {
+            osmium::io::Reader reader{format.empty() ? osmium::io::File{path} : osmium::io::File{path, format}};
+            (void)reader.header();
+            while (osmium::memory::Buffer b = reader.read()) {
+            }
+            reader.close();
+        } catch (const std::exception& e) {
+            threw = true;
+            msg = e.what();
+        }
+    }
+    if (make_file) ::unlink(path.c_str());
+    VP_CHECK(threw, "error-not-reported", "a Reader on an unreadable input (" << what << ") reported nothing | " << msg);
+    int t = perturb::thread_count();
+    for (int i = 0; i < 200 && t > threads_before; ++i) {
+        std::this_thread::sleep_for(std::chrono::milliseconds(2));
+        t = perturb::thread_count();
+    }
+    VP_CHECK(t <= threads_before, "thread-leak", "threads after " << attempts << " failed Reader constructions (" << what << "): " << t << ", before: " << threads_before << " | " << msg);
+    const int fds = perturb::fd_count();
+    VP_CHECK(fds <= fds_before, "fd-leak", "open descriptors after " << attempts << " failed Reader constructions (" << what << "): " << fds << ", before: " << fds_before << " | " << msg);
+    vp::count("constructor_failure_" + std::to_string(kind));
+    vp::nontrivial(vp::hash_str(what) ^ attempts);
+}
+
+VP_BUILTIN(F36_reader_fd_leak_when_compression_is_not_supported) {
+    // (this harness registers its own gzip decompressor and does not include the bzip2 header: bzip2 is "not compiled in")
+    static const std::string path = tmpdir::prefix() + "c07d-" + std::to_string(getpid()) + ".opl.bz2";
+    {
+        std::ofstream f(path, std::ios::binary | std::ios::trunc);
+        f << "n1 v1\n";
+    }
+    (void)osmium::thread::Pool::default_instance();
+    const int before = perturb::fd_count();
+    bool threw = false;
+    for (int round = 0; round < 3; ++round) {
+        try {
+            osmium::io::Reader reader{osmium::io::File{path}};
+            while (reader.read()) {
+            }
+            reader.close();
+        } catch (const std::exception&) {
+            threw = true;
+        }
+    }
+    ::unlink(path.c_str());
+    VP_CHECK(threw, "error-not-reported", "a Reader on a bzip2 file in a program without bzip2 support reported nothing");
+    VP_CHECK(perturb::fd_count() <= before, "fd-leak", "three failed Reader constructions on a file whose compression is not supported left " << (perturb::fd_count() - before) << " file descriptors open");
+}
+
 static void prop_all(Src& s) {
     if (s.chance(1, 25)) prop_close_stops_reading(s);
+    else if (s.chance(1, 30)) prop_constructor_failure(s);
     else prop(s);
 }
 
